@@ -133,6 +133,11 @@ pub enum GcTemplate {
     RandomDense,
     /// like RandomSparse, but starts are biased to land right before interesting instructions
     Targeted { p: u32 },
+    /// a cycle opens exactly at a channel read (one read in `p`): everything unreachable at that
+    /// moment is found dead at once, and the sweep is held open for as long as the task stays at
+    /// a channel read, then proceeds one object per instruction - so the value received is built
+    /// while the collector still has dead objects of the receiving task to reclaim
+    CycleAtRead { p: u32 },
     /// exactly one forced cycle starting at decision `start_at`, with fixed increments per
     /// instruction; otherwise the collector is off (used for the exhaustive start-point sweeps)
     SingleCycle { start_at: u64, mark: u32, sweep: u32 },
@@ -908,6 +913,26 @@ impl Sim {
                                 2 => (false, 0, rng.range(1, 4) as u32),
                                 _ => (false, 0, u32::MAX),
                             },
+                        })
+                    }
+                    GcTemplate::CycleAtRead { p: pp } => {
+                        let at_read = matches!(ctx.next_instr, Instr::ChannelRead);
+                        Some(match ctx.phase {
+                            GcPhase::Idle => {
+                                if at_read && ctx.heap_objects > 0 && rng.below(pp.max(1) as u64) == 0 {
+                                    (true, u32::MAX, 0)
+                                } else {
+                                    (false, 0, 0)
+                                }
+                            }
+                            GcPhase::Marking => (false, u32::MAX, 0),
+                            GcPhase::Sweeping => {
+                                if at_read {
+                                    (false, 0, 0)
+                                } else {
+                                    (false, 0, 1)
+                                }
+                            }
                         })
                     }
                     GcTemplate::RandomDense => Some(match ctx.phase {
